@@ -54,6 +54,8 @@ def _worker(args):
         case = mod.make_case(seed, facts, index)
         out = mod.exec_case(case, facts, src=src)
         out["index"], out["seed"] = index, seed
+        if out["violations"]:
+            out["case"] = case
         return out
     except Exception as exc:  # pylint: disable=broad-except
         return {"index": index, "seed": seed, "harness_error": "%s: %s\n%s" % (type(exc).__name__, exc, traceback.format_exc())}
@@ -61,29 +63,58 @@ def _worker(args):
         faulthandler.cancel_dump_traceback_later()
 
 
-def run_batch(prop, indices, master, workers=None, src=None, wall_cap=None, progress=None):
+def _worker_case(args):
+    prop, case, src = args
+    faulthandler.dump_traceback_later(600, exit=False)
+    try:
+        mod = mod_for(prop)
+        facts = tree.all_facts(src or runner.DEFAULT_SRC)
+        out = mod.exec_case(case, facts, src=src)
+        out["index"], out["seed"] = case.get("index", -1), case.get("seed", 0)
+        if out["violations"]:
+            out["case"] = case
+        return out
+    except Exception as exc:  # pylint: disable=broad-except
+        return {"index": case.get("index", -1), "seed": case.get("seed", 0), "harness_error": "%s: %s\n%s" % (type(exc).__name__, exc, traceback.format_exc())}
+    finally:
+        faulthandler.cancel_dump_traceback_later()
+
+
+def _run_tasks(fn, tasks, key, workers=None, wall_cap=None):
+    """Run tasks on a fork pool; results keyed by key(task). A dead worker turns into a harness error, never a hang."""
     workers = workers or int(os.environ.get("RP2SIM_WORKERS", "0")) or min(16, os.cpu_count() or 4)
-    tasks = [(prop, gen.case_seed(master, prop, i), i, src) for i in indices]
     results = {}
     t0 = time.monotonic()
     ctx = multiprocessing.get_context("fork")
     with cf.ProcessPoolExecutor(max_workers=workers, mp_context=ctx) as pool:
-        futs = {pool.submit(_worker, t): t for t in tasks}
+        futs = {pool.submit(fn, t): t for t in tasks}
         pending = set(futs)
         while pending:
             done, pending = cf.wait(pending, timeout=30, return_when=cf.FIRST_COMPLETED)
             for f in done:
                 t = futs[f]
                 try:
-                    results[t[2]] = f.result()
+                    results[key(t)] = f.result()
                 except Exception as exc:  # pylint: disable=broad-except
-                    results[t[2]] = {"index": t[2], "seed": t[1], "harness_error": "worker died: %s" % exc}
-            if progress:
-                progress(len(results), len(tasks))
+                    results[key(t)] = {"index": key(t), "seed": 0, "harness_error": "worker died: %s" % exc}
             if wall_cap and time.monotonic() - t0 > wall_cap:
                 for f in pending:
                     f.cancel()
                 raise runner.HarnessError("wall cap of %ss hit with %d/%d cases done" % (wall_cap, len(results), len(tasks)))
+    return results
+
+
+def run_cases(prop, cases, src=None, workers=None):
+    """Execute explicit case descriptions (used by enumeration phases and self-tests)."""
+    tasks = [(prop, dict(c, _k=i), src) for i, c in enumerate(cases)]
+    results = _run_tasks(_worker_case, tasks, key=lambda t: t[1]["_k"], workers=workers)
+    return [results[i] for i in range(len(cases))]
+
+
+def run_batch(prop, indices, master, workers=None, src=None, wall_cap=None, progress=None):
+    del progress
+    tasks = [(prop, gen.case_seed(master, prop, i), i, src) for i in indices]
+    results = _run_tasks(_worker, tasks, key=lambda t: t[2], workers=workers, wall_cap=wall_cap)
     return [results[i] for i in indices]
 
 
@@ -104,14 +135,16 @@ def aggregate(outs):
             if nt:
                 nontrivial_sigs.add(s)
         for v in o["violations"]:
-            violations.append((o["index"], o["seed"], v))
+            violations.append((o["index"], o["seed"], v, o.get("case")))
     return stats, sigs, nontrivial_sigs, violations, harness_errors
 
 
 def write_replay(prop, case, sig, violation, note=None):
     os.makedirs(REPLAY_DIR, exist_ok=True)
-    path = os.path.join(REPLAY_DIR, "%s-%d.json" % (prop, case["seed"]))
-    doc = {"property": prop, "signature": sig, "violation": violation, "case": W.to_jsonable(case), "note": note,
+    import hashlib  # pylint: disable=import-outside-toplevel
+
+    path = os.path.join(REPLAY_DIR, "%s-%d-%s.json" % (prop, case["seed"], hashlib.sha1(sig.encode()).hexdigest()[:8]))
+    doc = {"property": prop, "signature": sig, "violation": W.to_jsonable(violation), "case": W.to_jsonable(case), "note": note,
            "how": "/venv/bin/python -m rp2sim replay %s" % path}
     with open(path, "w", encoding="utf-8") as fh:
         json.dump(doc, fh, indent=1, ensure_ascii=False)
@@ -159,8 +192,8 @@ def check(prop, tier, master, cases=None, src=None, log=print, write_evidence=Tr
         return 2
     known = load_known()
     by_sig = {}
-    for index, seed, v in violations:
-        by_sig.setdefault(minimize.vsig(prop, v), []).append((index, seed, v))
+    for index, seed, v, vcase in violations:
+        by_sig.setdefault(minimize.vsig(prop, v), []).append((index, seed, v, vcase))
     new_sigs = [s for s in by_sig if s not in known]
     for s in sorted(by_sig):
         if s in known:
@@ -168,10 +201,7 @@ def check(prop, tier, master, cases=None, src=None, log=print, write_evidence=Tr
     reported = []
     min_info = {}
     for s in sorted(new_sigs)[: int(os.environ.get("RP2SIM_MAX_REPORTS", "4"))]:
-        index, seed, v = sorted(by_sig[s], key=lambda t: t[0])[0]
-        case = mod.make_case(seed, facts, index) if index < 10**9 else None
-        if case is None or v.get("case") is not None:
-            case = v.get("case")
+        index, seed, v, case = sorted(by_sig[s], key=lambda t: t[0])[0]
         if os.environ.get("RP2SIM_NO_MINIMIZE"):
             small, info = case, {"runs": 0, "accepted": 0, "skipped": True}
         else:
@@ -231,7 +261,7 @@ def build_evidence(prop, mod, tier, master, outs, stats, sigs, nt_sigs, violatio
         "probes": probes,
         "probes_stuck_at_zero": sorted(k for k, v in probes.items() if v == 0),
         "other_counters": {k: v for k, v in sorted(stats.items()) if ":" not in k and k not in ("runs", "sim_span_s", "clock_reads", "clock_jumps_fired")},
-        "known_findings_matched": sorted(s for s in {minimize.vsig(prop, v) for _, _, v in violations} if s in known),
+        "known_findings_matched": sorted(s for s in {minimize.vsig(prop, v) for _, _, v, _ in violations} if s in known),
         "new_violation_signatures": sorted(new_sigs),
         "minimisation": min_info,
         "components": {
